@@ -908,6 +908,22 @@ def c15_extra(tier, rnd):
             cmds += [{"c": "complete", "h": 2, "o": "ok"}] + ([{"c": "complete", "h": 3, "o": "ok"}] if late == 2 else [])
             cmds += [{"c": "complete", "j": 99, "o": "ok"}, {"c": "drain"}]
             runs.append(dict(cfg=cfg, cmds=cmds, src="slow_shutdown_" + name))
+    # the crate's DEFAULT control services (the application installs neither .protocol() nor .control()): the
+    # DISCONNECT of each error path, and orderly / disorderly ends with handlers in flight
+    for name, cfgx, cause in (
+            ("qos", dict(max_qos=1), [{"c": "mark", "e": "cause", "k": "qos"}, pub(q=2, id=5)]),
+            ("retain", dict(max_qos=2, ack_retain_available=0), [{"c": "mark", "e": "cause", "k": "retain"}, pub(q=1, id=6, retain=1)]),
+            ("alias", dict(max_qos=2), [{"c": "mark", "e": "cause", "k": "alias"}, pub(q=0, topic="", alias=2)]),
+            ("toolarge", dict(max_qos=2, ack_max_packet_size=64, max_size=64), [{"c": "mark", "e": "cause", "k": "toolarge"}, pub(q=0, plen=100)]),
+            ("handler_error", dict(max_qos=2), [{"c": "arm", "o": "err"}, pub(q=1, id=7)]),
+            ("undecodable", dict(max_qos=2), [{"c": "in", "p": {"t": "raw", "hex": "00 00"}}]),
+            ("peer_disconnect", dict(max_qos=2), [{"c": "in", "p": {"t": "disconnect"}}]),
+            ("peer_close", dict(max_qos=2), [{"c": "peer_close"}]),
+            ("ping", dict(max_qos=2), [{"c": "in", "p": {"t": "pingreq"}}])):
+        for busy in (0, 1):
+            cfg = dict(dict(role="server", ver=5, gate_pub=1, gate_proto=0, max_receive=16, max_topic_alias=2, default_ctl=1), **cfgx)
+            cmds = [handshake("server", 5)] + ([pub(q=1, id=1)] if busy else []) + cause + [{"c": "drain"}]
+            runs.append(dict(cfg=cfg, cmds=cmds, src="default_services_" + name))
     # one restriction in force at a time, the offending PUBLISH carrying every combination of the other flags: the
     # DISCONNECT names the restriction that was violated, not one that the packet merely touches
     mark = lambda k: {"c": "mark", "e": "cause", "k": k}
@@ -1974,6 +1990,13 @@ def c20_extra(tier, rnd):
         # connect timeout: nothing arrives
         runs.append(dict(cfg=dict(role="server", ver=ver, connect_timeout=2),
                          cmds=[{"c": "mark", "k": "expect_drop", "n": 1000, "r": 4500}] + [{"c": "sleep", "ms": 1000}] * 5, src="connect_timeout"))
+        # the combined server: a peer that does not send enough for the protocol version to be recognised is dropped
+        # when the version timeout (2 s) expires, whatever the connect timeout says (and the other way round)
+        runs.append(dict(cfg=dict(role="both", ver=ver, version_timeout=2, connect_timeout=20),
+                         cmds=[{"c": "mark", "k": "expect_drop", "n": 1000, "r": 4500}] + [{"c": "sleep", "ms": 1000}] * 5, src="version_timeout"))
+        runs.append(dict(cfg=dict(role="both", ver=ver, version_timeout=2, connect_timeout=20),
+                         cmds=[{"c": "in", "p": {"t": "raw", "hex": "10"}}, {"c": "mark", "k": "expect_drop", "n": 1000, "r": 4500}]
+                              + [{"c": "sleep", "ms": 1000}] * 5, src="version_timeout_one_byte"))
         # client keep-alive pings
         runs.append(dict(cfg=dict(role="client", ver=ver, client_keep_alive=2),
                          cmds=[{"c": "in", "p": {"t": "connack", "rc": 0}}, {"c": "mark", "k": "expect_pings", "n": 2}] + [{"c": "sleep", "ms": 1000}] * 7,
